@@ -320,7 +320,7 @@ EqualsC ==
           /\ op' = [name |-> "matches", kt |-> kt, who |-> w, ok |-> (<<kt, w>> = <<st.kt, st.who>>)]
 \* every single-bit mutation / truncation of a serialised form decodes to an error or to another key/ID
 MutFormC ==
-  /\ st.form \in {"pkpb", "skpb", "idbin", "idb58", "idcidstr"} /\ st.sig = NoSig
+  /\ st.form \in {"pkpb", "idbin", "idb58", "idcidstr"} /\ st.sig = NoSig
   /\ UNCHANGED st
   /\ op' = [name |-> "mutform", form |-> st.form]
 \* inline threshold: a marshalled key of n bytes is embedded iff n <= 42
